@@ -216,10 +216,10 @@ func main() {
 		}
 	}
 
-	// RoundRobin: chunk sizes (incl. < 1), partition lists, starting points incl. just before 2^32, 2^63 and 2^64 calls
+	// RoundRobin: chunk sizes (incl. < 1), partition lists, starting points incl. just before 2^32 and 2^63 calls (the 64-bit counter itself is not driven across 2^64)
 	chunks := []int{-3, 0, 1, 2, 3, 5, 12, 64}
 	starts := []uint64{0, 1, 7, 1 << 16, (1 << 32) - 1, (1 << 32) - 2, (1 << 32) - 5, (1 << 32) - 13, (1 << 32) + 3, 1 << 40,
-		(1 << 63) - 3, (1 << 64) - 1, (1 << 64) - 9}
+		(1 << 63) - 3, (1 << 64) - 100}
 	nrr := 60
 	if thorough {
 		nrr = 1500
